@@ -446,68 +446,81 @@ def _wrappers_part(ctx):
     wrappers.run_part(ctx)
 
 
-def release_oracle(impl, rng):
-    """Direct judgement of the release rule on real tensors (no Coq model).  Returns (cases, failures)."""
+def release_program(rng):
+    """A small random program (pure data, so that it can be stored in a replay file and re-run)."""
+    nleaf = rng.randint(1, 3)
+    prog = {"leaves": [[rng.randint(1, 4), rng.random() < 0.8] for _ in range(nleaf)], "ops": [], "calls": []}
+    if not any(r for _, r in prog["leaves"]):
+        prog["leaves"][0][1] = True
+    n = nleaf
+    for _ in range(rng.randint(2, 7)):
+        prog["ops"].append([rng.choice(["add", "mul", "scale", "sub"]), rng.randrange(n), rng.randrange(n), rng.random() < 0.25])
+        n += 1
+    under_ctx = rng.random() < 0.2
+    for k in range(rng.randint(1, 3)):
+        prog["calls"].append({"root": rng.randrange(nleaf, n), "extend": rng.random() < 0.5, "retain_mode": under_ctx and rng.random() < 0.5})
+    return prog
+
+
+def run_release_program(impl, prog):
+    """Run the program on real tensors and judge the release rule after every backward.  Returns (backward calls, problems)."""
     np, sg = impl.np, impl.synapgrad
-    fails = []
-    cases = 0
-    for trial in range(120):
-        impl.reset_modes()
-        leaves = [sg.Tensor(np.array([float(rng.randint(1, 4))]), requires_grad=rng.random() < 0.8) for _ in range(rng.randint(1, 3))]
-        if not any(l.requires_grad for l in leaves):
-            leaves[0].requires_grad = True
-        nodes = list(leaves)
-        inter = []
-        marked = set()            # tensors the user marked with retain_grad() (not read back from the implementation)
-        under_ctx = rng.random() < 0.2
-        for _ in range(rng.randint(2, 7)):
-            a, b = rng.choice(nodes), rng.choice(nodes)
-            t = rng.choice([lambda: a + b, lambda: a * b, lambda: a * 2.0, lambda: a - b])()
-            nodes.append(t); inter.append(t)
-            if t.requires_grad and rng.random() < 0.25:
-                t.retain_grad(); marked.add(id(t))
-        roots = [t for t in inter if t.requires_grad]
-        if not roots:
+    impl.reset_modes()
+    nodes = [sg.Tensor(np.array([float(v)]), requires_grad=bool(r)) for v, r in prog["leaves"]]
+    marked = set()            # tensors the user marked with retain_grad() (not read back from the implementation)
+    for kind, i, j, mark in prog["ops"]:
+        a, b = nodes[i], nodes[j]
+        t = {"add": lambda: a + b, "mul": lambda: a * b, "scale": lambda: a * 2.0, "sub": lambda: a - b}[kind]()
+        nodes.append(t)
+        if mark and t.requires_grad:
+            t.retain_grad(); marked.add(id(t))
+    fails, cases, history = [], 0, []
+    for k, call in enumerate(prog["calls"]):
+        root = nodes[call["root"]]
+        if not root.requires_grad:
             continue
-        history = []
-        for k in range(rng.randint(1, 3)):
-            root = rng.choice(roots)
-            # optionally extend the graph from a former root before the next call
-            if history and rng.random() < 0.5:
-                root = history[-1] * 3.0
-                nodes.append(root); inter.append(root)
-            mode = under_ctx and rng.random() < 0.5
-            if mode:
-                with sg.retain_grads():
-                    root.backward()
-            else:
+        if history and call["extend"]:
+            root = history[-1] * 3.0           # a former root becomes an interior node of the next graph
+        mode = bool(call["retain_mode"])
+        if mode:
+            with sg.retain_grads():
                 root.backward()
-            history.append(root)
-            cases += 1
-            # reachable set
-            seen, stack = set(), [root]
-            reach = []
-            while stack:
-                n = stack.pop()
-                if id(n) in seen:
-                    continue
-                seen.add(id(n)); reach.append(n)
-                stack.extend(n._children)
-            for t in reach:
-                if not t.requires_grad:
-                    if t._grad is not None:
-                        fails.append("a tensor that does not require grad acquired a .grad")
-                    continue
-                keeps = t.is_leaf or t is root or id(t) in marked or mode
-                if keeps and t._grad is None:
-                    fails.append("a leaf / root / retained tensor has no .grad after backward")
-                if not keeps and t._grad is not None:
-                    fails.append("an intermediate result (not the root, not retained, retain mode off) kept its .grad after backward #%d%s"
-                                 % (k + 1, " (it was the root of an earlier call)" if any(t is h for h in history[:-1]) else ""))
-            if fails:
-                return cases, fails
+        else:
+            root.backward()
+        history.append(root)
+        cases += 1
+        seen, stack, reach = set(), [root], []
+        while stack:
+            n = stack.pop()
+            if id(n) in seen:
+                continue
+            seen.add(id(n)); reach.append(n)
+            stack.extend(n._children)
+        for t in reach:
+            if not t.requires_grad:
+                if t._grad is not None:
+                    fails.append("backward #%d: a tensor that does not require grad acquired a .grad" % (k + 1))
+                continue
+            keeps = t.is_leaf or t is root or id(t) in marked or mode
+            if keeps and t._grad is None:
+                fails.append("backward #%d: a leaf / root / retained tensor has no .grad afterwards" % (k + 1))
+            if not keeps and t._grad is not None:
+                fails.append("backward #%d: an intermediate result (not the root, not marked with retain_grad, retain mode off) kept its .grad%s"
+                             % (k + 1, " (it was the root of an earlier call)" if any(t is h for h in history[:-1]) else ""))
     impl.reset_modes()
     return cases, fails
+
+
+def release_oracle(impl, rng, n=120):
+    """Direct judgement of the release rule on real tensors (no Coq model).  Returns (backward calls, first failing (program, problems))."""
+    total, first = 0, None
+    for _ in range(n):
+        prog = release_program(rng)
+        cases, fails = run_release_program(impl, prog)
+        total += cases
+        if fails and (first is None or len(prog["ops"]) < len(first[0]["ops"])):
+            first = (prog, fails)
+    return total, first
 
 
 def _release_part(ctx):
@@ -526,12 +539,13 @@ def _release_part(ctx):
     ctx.tie("release rule: engine histories (which buffers exist after every event)", "correspondence", len(execs),
             len({repr(k) for k in kept}), mism,
             note="random histories of graph construction / backward from any node / retain_grad / retain_grads / resets, compared with Engine/History.v after every event")
-    cases, fails = release_oracle(impl, ctx.rng)
+    cases, first = release_oracle(impl, ctx.rng)
     ctx.extra["release_oracle_backward_calls"] = cases
-    if fails:
-        ctx.witness("Tensor.backward/release", "release-rule", {"seed": ctx.seed, "note": "random small graphs, see checks/c07.py release_oracle"},
+    if first:
+        prog, fails = first
+        ctx.witness("Tensor.backward/release", "release-rule", {"release_program": prog},
                     "after backward leaves keep their gradient; intermediate results other than the root release theirs unless retain_grad / retain_grads",
-                    {"problem": fails[0]})
+                    {"problems": fails[:3]})
 
 
 PARTS = [_wrappers_part, _release_part]
@@ -544,6 +558,14 @@ def replay(ctx, data):
     """Re-run a stored witness on the implementation."""
     if data.get("kind") != "failing-input":
         print(json.dumps(data.get("broken"), indent=1)); return 1
+    if "release_program" in data["input"]:
+        cases, fails = run_release_program(_impl(), data["input"]["release_program"])
+        print("release rule:", fails[:3] if fails else "holds on this program")
+        return 1 if fails else 0
+    if "program" not in data["input"]:
+        print("witness of the wrapper part:", json.dumps(data["input"])); 
+        from checks import wrappers
+        return wrappers.replay(ctx, data) if hasattr(wrappers, "replay") else 1
     src = data["input"]["program"]
     impl = _impl()
     impl.reset_modes()
